@@ -41,7 +41,9 @@ open AQ AQ.Adapter
 
 /-- "every connect, ping and close waiter finishes exactly once, with success or a connection error"
 
-    For every schedule whose ping uids are ids of simultaneously live objects (`LiveDistinct`: the uid of a
+    For every schedule — datagrams, timers, deferred transmissions, API calls AND cancellations of awaiting
+    application tasks at any point (`Op.cancelCaller`, see `cancel_harmless`) — whose ping uids are ids of
+    simultaneously live objects (`LiveDistinct`: the uid of a
     new ping differs from the uids of the waiters registered at that moment — NOT global uniqueness; a uid
     may be re-used once its waiter has completed) and every connection:
     (1) no waiter is completed twice;
@@ -86,6 +88,46 @@ theorem waiters_once (ops : List Op) (hlive : LiveDistinct {} ops) (c : Nat) (k 
     · have : 0 < (ids k.p.log).count w := List.count_pos_iff.2 h1
       have := hle w
       omega
+
+/-- Cancellation of the awaiting application task (`task.cancel()`, `asyncio.wait_for` timing out) is a
+    schedule event (`Op.cancelCaller`), so `waiters_once`, `reader_bytes`, `routing_inv`, … quantify over
+    cancellations at every point as well.  What the code guarantees — `wait_connected()` / `ping()` await
+    `asyncio.shield(waiter)`, `wait_closed()` awaits the Event's own future — is that the step changes
+    NOTHING of the adapter: no exception, same routing table, and every connection keeps every field (the
+    waiter stays registered and pending, to be completed later by its deciding event exactly as if the caller
+    were still there); only the ghost list `cancelled` grows.  In particular no waiter future is ever in a
+    cancelled state, so `set_result` / `set_exception` in `_process_events` cannot raise InvalidStateError
+    (the model has no such outcome; the correspondence check replays `adp.cancel` steps on the real objects
+    and its oracle reports any InvalidStateError or cancelled waiter future). -/
+theorem cancel_harmless (w : World) (c : Nat) (wd : WaiterId) :
+    (step w (.cancelCaller c wd)).2.err = none ∧
+    (step w (.cancelCaller c wd)).1.tbl = w.tbl ∧
+    (step w (.cancelCaller c wd)).1.conns.length = w.conns.length ∧
+    ∀ (c' : Nat) (k' : Conn), (step w (.cancelCaller c wd)).1.conns[c']? = some k' →
+      ∃ k : Conn, w.conns[c']? = some k ∧ k'.ss = k.ss ∧ k'.p = { k.p with cancelled := k'.p.cancelled } ∧
+        k'.p.pending = k.p.pending ∧ k'.p.log = k.p.log := by
+  simp only [step, World.onProto]
+  have herr : (w.onConn c (fun _ s => ({ s with p := cancelCaller s.p wd }, none)) .none).2.err = none := by
+    simp only [World.onConn]; split <;> rfl
+  refine ⟨herr, ?_⟩
+  cases hk : w.conns[c]? with
+  | none =>
+    rw [onConn_none w c _ _ hk]
+    exact ⟨rfl, rfl, fun c' k' h => ⟨k', h, rfl, rfl, rfl, rfl⟩⟩
+  | some k =>
+    rw [onConn_some w c _ _ k hk]
+    refine ⟨rfl, by simp, ?_⟩
+    intro c' k' h
+    simp only [List.getElem?_set] at h
+    by_cases e : c = c'
+    · subst e
+      simp only [if_true] at h
+      split at h
+      · cases h
+        refine ⟨k, hk, rfl, ?_, ?_, ?_⟩ <;> (simp only [cancelCaller]; split <;> rfl)
+      · cases h
+    · simp only [e, if_false] at h
+      exact ⟨k', h, rfl, rfl, rfl, rfl⟩
 
 /-- Today's code (all fixes switched off) violates the clause on three two- or three-step schedules:
     (a) wait_connected() called after HandshakeCompleted was processed is never completed;
@@ -300,6 +342,14 @@ example : ¬ LiveDistinct {} [.newConn, .ping 0 5 none [], .ping 0 5 none []] :=
 example : ((run {} [.newConn, .ping 0 5 none [], .ping 0 5 none [], .dgram 0 none [.terminated] []]).conns[0]?.map
     (fun k => (k.p.created, k.p.log))) = some ([0, 1], [(1, Res.cerr)]) := by decide
 
+-- cancelling the caller of an unacknowledged ping leaves the waiter registered; the late ack / the termination
+-- complete it (and the others) exactly once
+example : ((run {} [.newConn, .ping 0 5 none [], .ping 0 6 none [], .waitClosed 0, .cancelCaller 0 0,
+    .dgram 0 none [.pingAck 5] [], .dgram 0 none [.terminated] []]).conns[0]?.map
+    (fun k => (k.p.cancelled, k.p.log, k.p.pending))) =
+    some ([0], [(0, Res.ok), (1, Res.cerr), (2, Res.ok)], []) := by decide
+example : LiveDistinct {} [.newConn, .ping 0 5 none [], .cancelCaller 0 0, .dgram 0 none [.terminated] []] := by decide
+
 -- every connection of the demo world processed a well-shaped event stream
 example : demoWorld.conns.all (fun k => okLog k.p.evLog) = true := by decide
 example : EventStreamOK [Ev.handshake, .data 0 [1] false, .data 4 [7] true, .data 0 [2] true, .terminated] :=
@@ -326,6 +376,7 @@ example : EventStreamOK [Ev.data 0 [1, 2] true, .terminated] := by
 end AQ.Props.C19
 
 #print axioms AQ.Props.C19.waiters_once
+#print axioms AQ.Props.C19.cancel_harmless
 #print axioms AQ.Props.C19.waiters_once_counterexample
 #print axioms AQ.Props.C19.reader_bytes
 #print axioms AQ.Props.C19.timer_sync
